@@ -66,3 +66,27 @@ Lemma roundtrip_exact_bound_sign : forall d, in_i64 d ->
 Proof.
   intros d Hd. split; [apply roundtrip_exact_bound; assumption|apply roundtrip_exact_sign; assumption].
 Qed.
+
+(* ------------------------------------------------------------------ *)
+(* the round trip on the binary64 model: the property's bound, and the class
+   of durations on which the code misses it *)
+
+Definition roundtrip_bound (d : Z) : Prop :=
+  Z.abs (from_seconds (to_seconds d) - d) * 10 ^ 9 < Z.abs d + 10 ^ 9.
+
+(* negative durations between -10^9 units (-0.233 s) and -2^21 units (-0.49 ms):
+   there the allowance is below 2 units, the construction of from_seconds
+   (floor of a negative value, then truncation of the fraction) loses one unit
+   by design and the rounded product f * (2^32-1) can fall just below the
+   integer it should be, which truncation turns into a second lost unit *)
+Definition KnownClass_C32_roundtrip (d : Z) : Prop := - 10 ^ 9 < d <= - 2 ^ 21.
+
+Lemma roundtrip_refuted :
+  exists d, in_i64 d /\ KnownClass_C32_roundtrip d /\
+            from_seconds (to_seconds d) = d - 2 /\ ~ roundtrip_bound d.
+Proof.
+  exists (-2100223). split; [unfold in_i64; pows; lia|].
+  split; [unfold KnownClass_C32_roundtrip; change (10 ^ 9) with 1000000000; change (2 ^ 21) with 2097152; lia|].
+  assert (E : from_seconds (to_seconds (-2100223)) = -2100223 - 2) by (vm_compute; reflexivity).
+  split; [exact E|]. unfold roundtrip_bound. rewrite E. change (10 ^ 9) with 1000000000. lia.
+Qed.
